@@ -4,6 +4,8 @@ CONSTANTS
   Patience = 4
   LateAfter = 2
   InlineLast = FALSE
+  Deadline = 0
+  PassedMeansNone = FALSE
 INVARIANT SucceedsIffSomeAccepts
 INVARIANT WinnerAccepted
 INVARIANT HonestFailure
